@@ -68,6 +68,12 @@ ProfMath == [Base EXCEPT !.methods = {"pt"}, !.consts = {<<"int", 2, 1>>, <<"int
 ProfMathFirst == [Base EXCEPT !.methods = {"pt"}, !.consts = {<<"int", 2, 1>>}, !.binops = {"+"}, !.cmpops = {}, !.where = FALSE, !.select = FALSE,
                     !.first = TRUE, !.math = {<<"sqrt", 1>>, <<"fabs", 1>>, <<"atan2", 2>>}, !.rows = {"tuple"}, !.must = {"Math", "First"}]
 
+\* C12, fourth profile: INTEGER arguments, the result divided (a result that is secretly integer shows as integer division)
+ProfMathInt == [Base EXCEPT !.methods = {}, !.colls = {}, !.select = FALSE, !.where = FALSE, !.cmpops = {},
+                  !.consts = {<<"int", -1, 1>>, <<"int", 2, 1>>}, !.binops = {"/"},
+                  !.math = {<<f, 2>> : f \in MathFns2} \cup {<<"fabs", 1>>, <<"abs", 1>>, <<"sqrt", 1>>, <<"ceil", 1>>, <<"floor", 1>>, <<"round", 1>>},
+                  !.rows = {"bool"}, !.must = {"Math", "Bin"}]
+
 \* C06: every collection of the backend in scope x banks (bk3 is in no event), singleton, declared collection
 AllBanks(cs) == {<<c, b>> : c \in cs, b \in {"bk1", "bk2", "bk3"}}
 ProfColl == [Base EXCEPT !.classes = {"A", "B", "T", "M", "I"}, !.methods = {"pt", "runNumber"}, !.aggs = {"Count"},
@@ -86,6 +92,10 @@ ProfUserFnF == [ProfUserFn EXCEPT !.methods = {"pt", "vals"}, !.first = TRUE, !.
 \* ... and at event level, where the value is one column of several (consumed at the scope the call was entered in)
 ProfUserFnE == [Base EXCEPT !.methods = {"pt"}, !.consts = {<<"int", 2, 1>>}, !.cmpops = {}, !.where = FALSE, !.first = TRUE,
                   !.rows = {"seq", "tuple"}, !.userfns = {"vp_inc_res", "vp_incl", "vp_lin_a_b"}, !.must = {"First", "UserFn"}]
+
+\* C11, fourth profile: the SAME method-style function applied to DIFFERENT receivers with identical arguments in one
+\* expression (j.f(2) - j.link().f(2)): every call must see its own receiver
+ProfUserFnM == [ProfUserFn EXCEPT !.methods = {"link"}, !.userfns = {"vp_meth"}, !.binops = {"-"}, !.must = {"Bin", "UserFn"}]
 
 \* C10: the declared-signature space: object by value / pointer / double pointer, collection pointer,
 \* smart references with 1 and 2 extra dereferences, a declared tree type, an enum (output, comparison, argument)
